@@ -21,6 +21,7 @@ func c13Opts(r *mon.RNG, i int) *gram.GenOpts {
 func c13Child(c *mon.Child) {
 	if c.Batch == 0 {
 		c13Nested(c)
+		c13LongLookahead(c)
 	}
 	nInputs := c.N(150, 300)
 	for gi, h := range gram.Registry {
